@@ -71,6 +71,8 @@ Proof.
       exfalso. exact (scan_loop_terminates md (S (length data)) st0 (Nat.lt_succ_diag_r _) Es). }
   destruct (scan_loop_inv' E md D parse_tag_range_bytes count_packed_elements_le_len (Mem.zlen data) _ st0 st ltac:(lia) Es I0)
     as ((HB' & HL & HM & HDt & HSl) & Hat).
+  (* "too many fields": a rejection like any other *)
+  destruct (max_members <? Mem.zlen (st_members st)); [reflexivity|].
   cbn [init_msg m_unions].
   apply (parse_all E EO parse_tag_range_bytes count_packed_elements_le_len) with (N := Mem.zlen data).
   - intros f sm okc c vs H1 H2 H3 H4 H5 H6 H7 H8.
